@@ -1,8 +1,10 @@
 package main
 
 import (
+	"fmt"
 	"go/ast"
 	"go/token"
+	"go/types"
 	"sort"
 	"strings"
 
@@ -302,8 +304,8 @@ func (p *Prog) closureLabel(f *ssa.Function) string {
 
 func init() {
 	register(&Rule{
-		Name: "frame-with-error-untouched", Props: []string{"C19", "C16"}, Engine: "SSA", Floor: 4,
-		Doc: "a frame that comes back together with an error is not the caller's: the readers return nil with an error, and the client's readNext returns a frame it has already released or one whose body has become the connection's error. At every call of a function returning (*FrameHeader, error) the frame is not used anywhere the error is known to be non-nil",
+		Name: "result-with-error-untouched", Props: []string{"C19", "C16", "C12", "C17"}, Engine: "SSA", Floor: 10,
+		Doc: "a frame that comes back together with an error is not the caller's: the readers return nil with an error, and the client's readNext returns a frame it has already released or one whose body has become the connection's error. At every call of a function of the package returning (pointer..., error) no pointer result is used anywhere but where the error has been found nil: a connection that was not dialled, a frame that was not read",
 		Run: func(p *Prog, r *Out) {
 			n := 0
 			for _, f := range p.allFuncs() {
@@ -317,175 +319,192 @@ func init() {
 							continue
 						}
 						res := c.Common().Signature().Results()
-						if res.Len() != 2 || !p.isFrameHeaderPtr(res.At(0).Type()) || res.At(1).Type().String() != "error" {
+						g := c.Common().StaticCallee()
+						if g == nil || (g.Pkg != p.SPkg && g.Pkg != p.SUPkg) || res.Len() < 2 || res.At(res.Len()-1).Type().String() != "error" {
 							continue
 						}
-						var frv, errv ssa.Value
-						for _, ref := range *c.Referrers() {
-							if ex, ok := ref.(*ssa.Extract); ok {
-								if ex.Index == 0 {
-									frv = ex
-								} else {
-									errv = ex
-								}
-							}
-						}
-						callee := p.calleeName(c.Common())
-						fn := p.closureLabel(f)
-						key := fn + " leaves alone the frame " + callee + " returns with an error"
-						n++
-						r.fn(fn)
-						if frv == nil {
-							r.ok(key, p.ipos(in), "the frame result is not used at all")
-							continue
-						}
-						if errv == nil {
-							r.check(false, key, p.ipos(in), "", fn+" uses the frame "+callee+" returns without looking at the error")
-							continue
-						}
-						// the error, and what is loaded back from the local it is spilled to
-						errs := []ssa.Value{errv}
-						for _, ref := range *errv.Referrers() {
-							st, ok := ref.(*ssa.Store)
-							if !ok || st.Val != errv {
+						for ri := 0; ri < res.Len()-1; ri++ {
+							if _, isPtr := res.At(ri).Type().Underlying().(*types.Pointer); !isPtr {
 								continue
 							}
-							after := false
-							for _, y := range st.Block().Instrs {
-								if y == ssa.Instruction(st) {
-									after = true
+							var frv, errv ssa.Value
+							for _, ref := range *c.Referrers() {
+								if ex, ok := ref.(*ssa.Extract); ok {
+									if ex.Index == ri {
+										frv = ex
+									} else if ex.Index == res.Len()-1 {
+										errv = ex
+									}
+								}
+							}
+							callee := p.calleeName(c.Common())
+							fn := p.closureLabel(f)
+							what := "what"
+							if p.isFrameHeaderPtr(res.At(ri).Type()) {
+								what = "the frame"
+							}
+							key := fn + " leaves alone " + what + " " + callee + " returns with an error"
+							if ri > 0 {
+								key += fmt.Sprintf(" (#%d)", ri)
+							}
+							n++
+							r.fn(fn)
+							if frv == nil {
+								r.ok(key, p.ipos(in), "that result is not used at all")
+								continue
+							}
+							if errv == nil {
+								r.check(false, key, p.ipos(in), "", fn+" uses what "+callee+" returns without looking at the error")
+								continue
+							}
+							// the error, and what is loaded back from the local it is spilled to
+							errs := []ssa.Value{errv}
+							for _, ref := range *errv.Referrers() {
+								st, ok := ref.(*ssa.Store)
+								if !ok || st.Val != errv {
 									continue
 								}
-								if !after {
-									continue
-								}
-								if st2, isSt := y.(*ssa.Store); isSt && st2.Addr == st.Addr {
-									break
-								}
-								if ld, isLd := y.(*ssa.UnOp); isLd && ld.Op == token.MUL && ld.X == st.Addr {
-									errs = append(errs, ld)
-								}
-							}
-						}
-						// blocks where err == nil is known; a phi of errors stands for the
-						// call's error when each of its edges either carries that error
-						// or comes from where the error is already known to be nil
-						inErrs := func(v ssa.Value) bool {
-							for _, e := range errs {
-								if e == v {
-									return true
-								}
-							}
-							return false
-						}
-						var nilBlocks []*ssa.BasicBlock
-						nilKnown := func(b *ssa.BasicBlock) bool {
-							for _, nb := range nilBlocks {
-								if nb.Dominates(b) {
-									return true
-								}
-							}
-							return false
-						}
-						for round := 0; round < 4; round++ {
-							nilBlocks = nilBlocks[:0]
-							for _, ev := range errs {
-								for _, ref := range *ev.Referrers() {
-									bo, ok := ref.(*ssa.BinOp)
-									if !ok || (bo.Op != token.NEQ && bo.Op != token.EQL) {
+								after := false
+								for _, y := range st.Block().Instrs {
+									if y == ssa.Instruction(st) {
+										after = true
 										continue
 									}
-									other := bo.Y
-									if other == ev {
-										other = bo.X
-									}
-									if k, isK := other.(*ssa.Const); !isK || !k.IsNil() {
+									if !after {
 										continue
 									}
-									for _, u := range *bo.Referrers() {
-										iff, ok := u.(*ssa.If)
-										if !ok {
+									if st2, isSt := y.(*ssa.Store); isSt && st2.Addr == st.Addr {
+										break
+									}
+									if ld, isLd := y.(*ssa.UnOp); isLd && ld.Op == token.MUL && ld.X == st.Addr {
+										errs = append(errs, ld)
+									}
+								}
+							}
+							// blocks where err == nil is known; a phi of errors stands for the
+							// call's error when each of its edges either carries that error
+							// or comes from where the error is already known to be nil
+							inErrs := func(v ssa.Value) bool {
+								for _, e := range errs {
+									if e == v {
+										return true
+									}
+								}
+								return false
+							}
+							var nilBlocks []*ssa.BasicBlock
+							nilKnown := func(b *ssa.BasicBlock) bool {
+								for _, nb := range nilBlocks {
+									if nb.Dominates(b) {
+										return true
+									}
+								}
+								return false
+							}
+							for round := 0; round < 4; round++ {
+								nilBlocks = nilBlocks[:0]
+								for _, ev := range errs {
+									for _, ref := range *ev.Referrers() {
+										bo, ok := ref.(*ssa.BinOp)
+										if !ok || (bo.Op != token.NEQ && bo.Op != token.EQL) {
 											continue
 										}
-										t := iff.Block().Succs[1]
-										if bo.Op == token.EQL {
-											t = iff.Block().Succs[0]
+										other := bo.Y
+										if other == ev {
+											other = bo.X
 										}
-										if len(t.Preds) == 1 {
-											nilBlocks = append(nilBlocks, t)
+										if k, isK := other.(*ssa.Const); !isK || !k.IsNil() {
+											continue
+										}
+										for _, u := range *bo.Referrers() {
+											iff, ok := u.(*ssa.If)
+											if !ok {
+												continue
+											}
+											t := iff.Block().Succs[1]
+											if bo.Op == token.EQL {
+												t = iff.Block().Succs[0]
+											}
+											if len(t.Preds) == 1 {
+												nilBlocks = append(nilBlocks, t)
+											}
+										}
+									}
+								}
+								grew := false
+								for _, b2 := range f.Blocks {
+									for _, y := range b2.Instrs {
+										phi, isPhi := y.(*ssa.Phi)
+										if !isPhi || inErrs(phi) || phi.Type().String() != "error" {
+											continue
+										}
+										carries, all := false, true
+										for i, e := range phi.Edges {
+											if inErrs(e) {
+												carries = true
+											} else if !nilKnown(b2.Preds[i]) {
+												all = false
+											}
+										}
+										if carries && all {
+											errs = append(errs, phi)
+											grew = true
+										}
+									}
+								}
+								if !grew {
+									break
+								}
+							}
+							// the frame, and the phis it flows into
+							frames := []ssa.Value{frv}
+							for i := 0; i < len(frames); i++ {
+								for _, u := range *frames[i].Referrers() {
+									if phi, isPhi := u.(*ssa.Phi); isPhi {
+										dup := false
+										for _, x := range frames {
+											if x == ssa.Value(phi) {
+												dup = true
+											}
+										}
+										if !dup {
+											frames = append(frames, phi)
 										}
 									}
 								}
 							}
-							grew := false
-							for _, b2 := range f.Blocks {
-								for _, y := range b2.Instrs {
-									phi, isPhi := y.(*ssa.Phi)
-									if !isPhi || inErrs(phi) || phi.Type().String() != "error" {
+							bad := ""
+							spilled := false
+							for _, fv := range frames {
+								for _, u := range *fv.Referrers() {
+									switch x := u.(type) {
+									case *ssa.DebugRef, *ssa.Phi:
 										continue
-									}
-									carries, all := false, true
-									for i, e := range phi.Edges {
-										if inErrs(e) {
-											carries = true
-										} else if !nilKnown(b2.Preds[i]) {
-											all = false
+									case *ssa.Return:
+										// handed on together with the error: the caller's business
+										if returnsError(f) {
+											continue
+										}
+									case *ssa.Store:
+										if al, isAlloc := x.Addr.(*ssa.Alloc); isAlloc && x.Val == fv {
+											// a result spilled for the deferred calls and reloaded by the return
+											if returnsError(f) && onlyFeedsReturns(al) {
+												continue
+											}
+											spilled = true
 										}
 									}
-									if carries && all {
-										errs = append(errs, phi)
-										grew = true
+									if !nilKnown(u.Block()) && bad == "" {
+										bad = p.ipos(u)
 									}
 								}
 							}
-							if !grew {
-								break
+							if spilled {
+								r.undecided(key, p.ipos(in), "the frame is kept in a local that is read through memory; its uses cannot be followed")
+								continue
 							}
+							r.check(bad == "", key, p.ipos(in), "every use of the frame lies where err == nil is known", fn+" uses the frame "+callee+" returned where the error has not been found nil ("+bad+"): with an error it is nil, already back in its pool, or held by the connection's error")
 						}
-						// the frame, and the phis it flows into
-						frames := []ssa.Value{frv}
-						for i := 0; i < len(frames); i++ {
-							for _, u := range *frames[i].Referrers() {
-								if phi, isPhi := u.(*ssa.Phi); isPhi {
-									dup := false
-									for _, x := range frames {
-										if x == ssa.Value(phi) {
-											dup = true
-										}
-									}
-									if !dup {
-										frames = append(frames, phi)
-									}
-								}
-							}
-						}
-						bad := ""
-						spilled := false
-						for _, fv := range frames {
-							for _, u := range *fv.Referrers() {
-								switch x := u.(type) {
-								case *ssa.DebugRef, *ssa.Phi:
-									continue
-								case *ssa.Return:
-									// handed on together with the error: the caller's business
-									if sig := f.Signature.Results(); sig.Len() == 2 && sig.At(1).Type().String() == "error" {
-										continue
-									}
-								case *ssa.Store:
-									if _, isAlloc := x.Addr.(*ssa.Alloc); isAlloc && x.Val == fv {
-										spilled = true
-									}
-								}
-								if !nilKnown(u.Block()) && bad == "" {
-									bad = p.ipos(u)
-								}
-							}
-						}
-						if spilled {
-							r.undecided(key, p.ipos(in), "the frame is kept in a local that is read through memory; its uses cannot be followed")
-							continue
-						}
-						r.check(bad == "", key, p.ipos(in), "every use of the frame lies where err == nil is known", fn+" uses the frame "+callee+" returned where the error has not been found nil ("+bad+"): with an error the frame is nil, already back in its pool, or held by the connection's error")
 					}
 				}
 			}
@@ -494,4 +513,265 @@ func init() {
 			}
 		},
 	})
+}
+
+// mutexOf names the mutex a Lock/Unlock/TryLock call works on as Owner.field.
+func (p *Prog) mutexOf(c *ssa.CallCommon) (string, bool) {
+	if c.IsInvoke() || len(c.Args) != 1 {
+		return "", false
+	}
+	fa, ok := c.Args[0].(*ssa.FieldAddr)
+	if !ok {
+		return "", false
+	}
+	o, fld := p.fieldAddrName(fa)
+	return o + "." + fld, true
+}
+
+// lockEffect classifies a call: +1 acquires mutex m (Lock, RLock, a lock
+// wrapper, a successful acquire/acquireFor is handled by ctx-acquire-released),
+// -1 releases it (Unlock, RUnlock, a release wrapper).
+func (p *Prog) lockEffect(c *ssa.CallCommon, relWrappers map[string]string) (m string, eff int) {
+	n := p.calleeName(c)
+	switch n {
+	case "(*sync.Mutex).Lock", "(*sync.RWMutex).Lock", "(*sync.RWMutex).RLock":
+		if m, ok := p.mutexOf(c); ok {
+			return m, +1
+		}
+	case "(*sync.Mutex).Unlock", "(*sync.RWMutex).Unlock", "(*sync.RWMutex).RUnlock":
+		if m, ok := p.mutexOf(c); ok {
+			return m, -1
+		}
+	}
+	if m, ok := p.lockWrappers()[n]; ok {
+		return m, +1
+	}
+	if m, ok := relWrappers[n]; ok {
+		return m, -1
+	}
+	return "", 0
+}
+
+// releaseWrappers finds the methods that give up a mutex of their receiver they
+// did not take: an Unlock that no Lock of the same mutex in the function
+// dominates, passed on every path from entry to every return.
+func (p *Prog) releaseWrappers() map[string]string {
+	if v, ok := p.memo["releaseWrappers"]; ok {
+		return v.(map[string]string)
+	}
+	out := map[string]string{}
+	p.memo["releaseWrappers"] = out
+	for _, f := range p.allFuncs() {
+		if f.Pkg != p.SPkg || f.Blocks == nil || f.Signature.Recv() == nil || len(f.Params) == 0 {
+			continue
+		}
+		stop := map[ssa.Instruction]bool{}
+		m := ""
+		locks := false
+		for _, b := range f.Blocks {
+			for _, in := range b.Instrs {
+				c, ok := in.(*ssa.Call)
+				if !ok {
+					continue
+				}
+				switch p.calleeName(c.Common()) {
+				case "(*sync.Mutex).Unlock":
+					if fa, ok := c.Call.Args[0].(*ssa.FieldAddr); ok && fa.X == f.Params[0] {
+						m, _ = p.mutexOf(c.Common())
+						stop[in] = true
+					}
+				case "(*sync.Mutex).Lock", "(*sync.Mutex).TryLock":
+					locks = true
+				}
+				if _, ok := p.lockWrappers()[p.calleeName(c.Common())]; ok {
+					locks = true
+				}
+			}
+		}
+		if m == "" || locks {
+			continue
+		}
+		all := true
+		for _, b := range f.Blocks {
+			for _, in := range b.Instrs {
+				if ret, ok := in.(*ssa.Return); ok && reachesInstr(f.Blocks[0], ret, stop) {
+					all = false
+				}
+			}
+		}
+		if all {
+			out[p.fname(f)] = m
+		}
+	}
+	return out
+}
+
+// reachesAfter reports whether `to` can be reached from just after `from`
+// without passing an instruction in stop.
+func reachesAfter(from ssa.Instruction, to ssa.Instruction, stop map[ssa.Instruction]bool) bool {
+	b := from.Block()
+	after := false
+	for _, x := range b.Instrs {
+		if x == from {
+			after = true
+			continue
+		}
+		if !after {
+			continue
+		}
+		if x == to {
+			return true
+		}
+		if stop[x] {
+			return false
+		}
+	}
+	for _, s := range b.Succs {
+		if reachesInstr(s, to, stop) {
+			return true
+		}
+	}
+	return false
+}
+
+// releaseWrappersWanted are the ones the tree has today; one that stops
+// releasing is reported by name rather than through each of its callers.
+var releaseWrappersWanted = map[string]string{
+	"(*Ctx).release": "Ctx.lck",
+}
+
+func init() {
+	register(&Rule{
+		Name: "mutex-released-on-every-path", Props: []string{"C12", "C17", "C19"}, Engine: "PATH", Floor: 30,
+		Doc: "every Lock of one of the package's mutexes (a plain Lock/RLock, or a call of a method that returns holding one) is followed on every path to a return of the same function by an Unlock of that mutex (plain, deferred, or through a method that releases it), unless the function is itself one that returns holding it on purpose; the methods that release a mutex they did not take still do. A path that returns with a mutex held stops the next goroutine that needs it for good: a loop, a RoundTrip, Close",
+		Run: func(p *Prog, r *Out) {
+			rel := p.releaseWrappers()
+			for fn, m := range releaseWrappersWanted {
+				r.fn(fn)
+				r.check(rel[fn] == m, fn+" gives up "+m, "-", "an Unlock of "+m+" on every path through it, and no Lock", fn+" no longer unlocks "+m+" on every path: everything that takes the mutex through its counterpart keeps it")
+			}
+			holdOnPurpose := func(fn, m string) bool {
+				if p.lockWrappers()[fn] == m {
+					return true
+				}
+				// acquire / acquireFor return holding Ctx.lck when they report true; rule ctx-acquisition-shape has their refusing path
+				return m == "Ctx.lck" && (fn == "(*Ctx).acquire" || fn == "(*Ctx).acquireFor")
+			}
+			n := 0
+			for _, f := range p.allFuncs() {
+				if f.Pkg != p.SPkg || f.Blocks == nil {
+					continue
+				}
+				fn := p.closureLabel(f)
+				type site struct {
+					in ssa.Instruction
+					m  string
+				}
+				var locks []site
+				unl := map[string]map[ssa.Instruction]bool{}
+				add := func(m string, in ssa.Instruction) {
+					if unl[m] == nil {
+						unl[m] = map[ssa.Instruction]bool{}
+					}
+					unl[m][in] = true
+				}
+				for _, b := range f.Blocks {
+					for _, in := range b.Instrs {
+						switch x := in.(type) {
+						case *ssa.Call:
+							if m, eff := p.lockEffect(x.Common(), rel); eff > 0 {
+								locks = append(locks, site{in, m})
+							} else if eff < 0 {
+								add(m, in)
+							}
+						case *ssa.Defer:
+							if m, eff := p.lockEffect(x.Common(), rel); eff < 0 {
+								add(m, in)
+								continue
+							}
+							// defer func() { ...Unlock... }()
+							var gs []*ssa.Function
+							if g := x.Common().StaticCallee(); g != nil && g.Blocks != nil {
+								gs = append(gs, g)
+							} else if !x.Common().IsInvoke() {
+								gs = p.closureOf(x.Common().Value, f, 3)
+							}
+							for _, g := range gs {
+								for _, b2 := range g.Blocks {
+									for _, y := range b2.Instrs {
+										if c2, ok := y.(*ssa.Call); ok {
+											if m, eff := p.lockEffect(c2.Common(), rel); eff < 0 {
+												add(m, in)
+											}
+										}
+									}
+								}
+							}
+						}
+					}
+				}
+				for _, l := range locks {
+					n++
+					r.fn(p.fname(f))
+					key := fn + " gives back " + l.m + " (" + p.calleeName(l.in.(*ssa.Call).Common()) + ")"
+					if holdOnPurpose(p.fname(f), l.m) {
+						r.ok(key, p.ipos(l.in), "returns holding it on purpose: its callers are checked instead")
+						continue
+					}
+					// a deferred release registered before the Lock covers it too
+					deferred := false
+					for in := range unl[l.m] {
+						if _, isDef := in.(*ssa.Defer); isDef && instrDominates(in, l.in) {
+							deferred = true
+						}
+					}
+					leak := ""
+					if !deferred {
+						for _, b2 := range f.Blocks {
+							if b2 == f.Recover {
+								continue
+							}
+							for _, y := range b2.Instrs {
+								if ret, ok := y.(*ssa.Return); ok && reachesAfter(l.in, ret, unl[l.m]) {
+									leak = p.ipos(ret)
+								}
+							}
+						}
+					}
+					r.check(leak == "", key, p.ipos(l.in), "an Unlock of "+l.m+" on every path from here to a return", fn+" can return (at "+leak+") still holding "+l.m+": the next goroutine that needs it waits for ever")
+				}
+			}
+			if n == 0 {
+				r.undecided("lock sites", "?", "no Lock call found in the package")
+			}
+		},
+	})
+}
+
+func returnsError(f *ssa.Function) bool {
+	sig := f.Signature.Results()
+	return sig.Len() >= 2 && sig.At(sig.Len()-1).Type().String() == "error"
+}
+
+// onlyFeedsReturns: every use of the local is a store into it or a load that
+// only return instructions consume.
+func onlyFeedsReturns(al *ssa.Alloc) bool {
+	for _, u := range *al.Referrers() {
+		switch x := u.(type) {
+		case *ssa.Store:
+			if x.Addr != ssa.Value(al) {
+				return false
+			}
+		case *ssa.UnOp:
+			for _, v := range *x.Referrers() {
+				if _, ok := v.(*ssa.Return); !ok {
+					return false
+				}
+			}
+		case *ssa.DebugRef:
+		default:
+			return false
+		}
+	}
+	return true
 }
